@@ -234,10 +234,30 @@ Fixpoint first_lt (o : nat -> dcmp) (k : nat) (n : nat) : nat :=   (* searches k
   end.
 Definition stop_index (c : cfg) : nat := first_lt (oracle c) 1 (max_iter c).
 
+(* ---- hypotheses used by the theorems ---- *)
+Definition start_safe (v : var) : bool := match v with VCoefNew | VDiff => false | _ => true end.
+(* a callback that can be dispatched: its on_loop_start does not ask for variables that do not exist yet in the
+   first iteration (coef_new, diff); otherwise validate_callback_data asserts and the fit aborts *)
+Definition cb_ok (cb : callback) : Prop :=
+  forall args, cb_start cb = Some args -> forallb start_safe args = true.
+Definition cbs_ok (cs : list callback) : Prop := forall cb, In cb cs -> cb_ok cb.
+(* logs_ is keyed by str(callback): distinct callbacks must have distinct names to have separate logs *)
+Definition names_unique (cs : list callback) : Prop := NoDup (map cb_name cs).
+Definition hooks_of (cb : callback) : nat :=
+  (if is_some (cb_start cb) then 1 else 0) + (if is_some (cb_end cb) then 1 else 0).
+Definition ok_cfg (c : cfg) : Prop :=
+  1 <= max_iter c /\ (forall k, numfail c k = false) /\ cbs_ok (cbs c).
+
 (* ---- constructor forwarding table ---- *)
-Record ctor := { c_class : string; c_base : string; c_params : list string; c_forwarded : list string; c_stored : list string }.
+Record ctor := { c_class : string; c_base : string; c_params : list string; c_forwarded : list string; c_stored : list string;
+  c_cb_default : list string (* default value of the `callbacks` parameter *) }.
 Definition smem (x : string) (l : list string) : bool := existsb (String.eqb x) l.
 Definition ctor_forwards (k : string) (c : ctor) : bool := implb (smem k (c_params c)) (smem k (c_forwarded c)).
+(* a constructor parameter reaches the attribute that the loop reads: the base class stores it
+   (self.k = k), a subclass passes it on to the base constructor under the same name *)
+Definition ctor_reaches (k : string) (c : ctor) : bool :=
+  if String.eqb (c_base c) "GAM" then ctor_forwards k c
+  else implb (smem k (c_params c)) (smem k (c_stored c)).
 
 (* ---- built-in callback table ---- *)
 Inductive retkind := RDeviance (uses : list var) | RAccuracy (uses : list var) | RDiff | RCoef | ROpaque.
